@@ -305,3 +305,8 @@ def run(chk):
     chk.not_decided("r^(N+1) decay of the round-trip and energy discrepancies", "domain of convergence")
     _chains(chk)
     _lifting(chk)
+    # the round trip needs the inverse Lie series to BE the inverse: Phi_inv o Phi == id mod degree N+1 on a generic
+    # Hamiltonian (the real _lie_transform / _lie_expansion; obligation shared with C08)
+    from contracts import C08
+    chk.under_contract(C08.CL + ":_lie_expansion", C08.CL + ":_lie_transform", C08.CL + ":_apply_coord_transform")
+    C08._whole(chk, 4, partial_only=True)
